@@ -72,3 +72,60 @@ pub open spec fn mm_post(f: Seq<GTree>, out: Seq<RemoveMarker>) -> bool {
     &&& forall|i: int| 0 <= i < out.len() ==> forest_endpoint(f, (#[trigger] out[i]).0.start) && forest_endpoint(f, out[i].0.end)
     &&& pairs_consistent(out)
 }
+
+// ---- merge_markers as a spec function (mirrors the fold; built on mcm) ----
+pub open spec fn rebased(cm: Seq<RemoveMarker>, sc: int, ec: int, cur: int) -> Seq<RemoveMarker> {
+    Seq::new((ec - sc) as nat, |k: int| (cm[sc + k].0, match cm[sc + k].1 {
+        Some(p) => if sc <= p < ec { Some((p - sc + cur + 1) as usize) } else { None },
+        None => None,
+    }))
+}
+/// the markers produced for one tree, given the merged markers `cm` of its children; `cur` = index of the first one
+pub open spec fn tree_markers(t: GTree, cm: Seq<RemoveMarker>, cur: int) -> Seq<RemoveMarker> {
+    let cr = marker_ranges(cm);
+    let a = mcm(cr, t.range.0);
+    match t.range.1 {
+        Some(tail) => {
+            let b = mcm(cr.reverse(), tail);
+            let ec = cm.len() - b.0;
+            if a.0 > ec {
+                seq![(Range { start: a.1.start, end: b.1.end }, None::<usize>)]
+            } else {
+                seq![(a.1, Some((cur + (ec - a.0) + 1) as usize))] + rebased(cm, a.0, ec, cur) + seq![(b.1, Some(cur as usize))]
+            }
+        },
+        None => seq![(a.1, None::<usize>)],
+    }
+}
+pub open spec fn mm_spec(f: Seq<GTree>) -> Seq<RemoveMarker>
+    decreases f,
+{
+    if f.len() == 0 { Seq::empty() } else {
+        let prev = mm_spec(f.drop_last());
+        prev + tree_markers(f.last(), mm_spec(f.last().children), prev.len() as int)
+    }
+}
+/// number of nodes of the forest
+pub open spec fn forest_size(f: Seq<GTree>) -> nat
+    decreases f,
+{
+    if f.len() == 0 { 0 } else { forest_size(f.drop_last()) + 1 + forest_size(f.last().children) }
+}
+pub proof fn lemma_mcm_bounds(s: Seq<Range<usize>>, m: Range<usize>)
+    ensures 0 <= mcm(s, m).0 <= s.len(),
+    decreases s.len(),
+{
+    if s.len() > 0 && touches(m, s[0]) { lemma_mcm_bounds(s.drop_first(), hull(m, s[0])); }
+}
+pub proof fn lemma_mm_len(f: Seq<GTree>)
+    ensures mm_spec(f).len() <= 2 * forest_size(f), f.len() > 0 ==> mm_spec(f).len() > 0,
+    decreases f,
+{
+    if f.len() > 0 {
+        lemma_mm_len(f.drop_last());
+        lemma_mm_len(f.last().children);
+        let cm = mm_spec(f.last().children);
+        lemma_mcm_bounds(marker_ranges(cm), f.last().range.0);
+        if f.last().range.1 is Some { lemma_mcm_bounds(marker_ranges(cm).reverse(), f.last().range.1->0); }
+    }
+}
